@@ -7,14 +7,17 @@ import (
 	"github.com/superfly/litefs/verifharness/core"
 	"github.com/superfly/litefs/verifharness/dbreplay"
 	"github.com/superfly/litefs/verifharness/repl"
+	"github.com/superfly/litefs/verifharness/t3"
 )
 
 func main() {
+	t3.MaybeChild()
 	args := core.ParseArgs()
 	rep := core.NewReport("C09", "model_checking", args)
 	rep.Rule = "behaviours of DBFile.tla (local commits in both journal modes, rollbacks, checkpoints) interleaved with retention sweeps of zero-length retention at every idle point; after every step that ends a transaction and after every sweep the ltx directory is listed and decoded: every file verifies, min = previous max + 1, pre = previous post, last file = current position, nothing but transaction files and *.tmp; non-trivial = at least one transaction was captured"
 	rep.Assumptions = []string{"replicated applies, snapshots and backup acknowledgements are covered by the cluster checks (C01, C06, C14) with the same chain monitor"}
 	defer core.Cleanup()
+	dbreplay.Post = func() { t3.Stage(rep, args, map[string]bool{"C09": true}) }
 	// replicated applies, snapshots, restarts and drops: the cluster scripts with this property's monitors
 	repl.Main(rep, args, map[string]bool{"C09": true}, []repl.Stage{
 		{Name: "repl-3n-2tx-2faults", Cfg: "MC_Repl_quick.cfg", Timeout: 10 * time.Minute, MaxKeep: core.Pick(args, 40, 300)},
